@@ -3,6 +3,7 @@ package props
 import (
 	"fmt"
 	"math/rand/v2"
+	"strconv"
 	"strings"
 	"time"
 
@@ -239,6 +240,50 @@ func genC02(seed uint64, run int, tier string) Scenario {
 		f.MustFail = listedMalformed[f.Kind]
 		sc.Frames = append(sc.Frames, f)
 	}
+	// one large reply per run: chunk sizes of 4 to 6 digits (7 in the thorough tier, rarely)
+	if tier == "thorough" || r.IntN(3) == 0 {
+		size := pick(r, 1000, 9999, 10000, 65535, 65536, 99999, 100000, 250000)
+		if tier == "thorough" && r.IntN(8) == 0 {
+			size = pick(r, 999999, 1000000, 1234567)
+		}
+		var big strings.Builder
+		big.Grow(size + 64)
+		unit := word(r, lower+digits+" <>/=\"\n#", 20, 90)
+		unit = strings.ReplaceAll(unit, "##", "#-")
+		for big.Len() < size {
+			big.WriteString(unit)
+			big.WriteString(strconv.Itoa(big.Len()))
+		}
+		hasErr := r.IntN(3) == 0
+		body := "<data><![CDATA[" + strings.ReplaceAll(big.String()[:size], "]]>", "]] ") + "]]></data>"
+		if hasErr {
+			body += "<rpc-error><error-severity>error</error-severity></rpc-error>"
+		}
+		payload := `<rpc-reply xmlns="urn:ietf:params:xml:ns:netconf:base:1.0" message-id="101">` + body + `</rpc-reply>`
+		f := C02Frame{Version: "1.1", Kind: "well-formed", Want: payload, WantFail: hasErr}
+		var sizes []int
+		switch r.IntN(3) {
+		case 0: // one chunk
+		case 1: // a few large chunks
+			for left := len(payload); left > 1; {
+				n := between(r, 1, left)
+				sizes = append(sizes, n)
+				left -= n
+				if len(sizes) > 6 {
+					break
+				}
+			}
+		default: // the big chunk follows or precedes small ones
+			sizes = []int{between(r, 1, 9), between(r, 10, 99), len(payload) - 200}
+		}
+		f.Raw = strings.TrimSuffix(peer.Frame11(payload, sizes), "\n")
+		if r.IntN(6) == 0 {
+			f.Kind = "truncate"
+			f.Raw = f.Raw[:len(f.Raw)-between(r, 4, 400)]
+			f.MustFail = true
+		}
+		sc.Frames = append(sc.Frames, f)
+	}
 
 	return sc
 }
@@ -246,24 +291,34 @@ func genC02(seed uint64, run int, tier string) Scenario {
 // coveredBy reports whether res is a concatenation of substrings of src (greedy), i.e. contains
 // no byte run the server did not send.
 func coveredBy(res, src string) (bool, int) {
+	if strings.Contains(src, res) {
+		return true, -1
+	}
 	pos := 0
 	for pos < len(res) {
-		l := 0
-		for l < len(res)-pos && strings.Contains(src, res[pos:pos+l+1]) {
-			l++
-			if l > 64 {
-				// long enough piece: continue greedily in bigger steps
-				for pos+l < len(res) && strings.Contains(src, res[pos:pos+l+1]) {
-					l++
-				}
-
-				break
-			}
-		}
-		if l == 0 {
+		// longest prefix of res[pos:] that occurs in src (containment is monotone in the length):
+		// gallop, then bisect
+		rest := res[pos:]
+		if !strings.Contains(src, rest[:1]) {
 			return false, pos
 		}
-		pos += l
+		lo, hi := 1, 2
+		for hi <= len(rest) && strings.Contains(src, rest[:hi]) {
+			lo, hi = hi, hi*2
+		}
+		if hi > len(rest) {
+			hi = len(rest) + 1
+		}
+		// invariant: rest[:lo] is contained, rest[:hi] is not (or hi is past the end)
+		for hi-lo > 1 {
+			mid := (lo + hi) / 2
+			if strings.Contains(src, rest[:mid]) {
+				lo = mid
+			} else {
+				hi = mid
+			}
+		}
+		pos += lo
 	}
 
 	return true, -1
